@@ -18,3 +18,12 @@ import rules_opt  # noqa
 prop("C02", ["T-OPT-PROT", "T-OPT-KILL", "T-OPT-BARRIER", "T-INLINE-COPY", "T-OPT-SIZE"])
 prop("C14", ["T-INLINE-COPY", "T-INLINE-LABELS"])
 prop("C18", ["T-CSLEEP", "T-DUMMY-ZP", "T-PROTECT-REGION", "T-OPT-PROT", "T-OPT-BARRIER"])
+prop("C10", ["T-PREC", "T-CALC-OPS", "T-FOLD", "T-DIV-GUARD", "T-SIZEOF"])
+import rules_total  # noqa
+import rules_treewalk  # noqa
+prop("C16", ["T-TREEWALK", "T-PRATT-TOTAL", "T-TOKEN-DOMAIN", "T-ERR-UNWRAP", "T-LOC-INDEX", "T-VARIANT-FLOW", "T-DIV-GUARD"])
+import rules_misc  # noqa
+prop("C12", ["T-CALL-EMIT", "T-CALL-RECORD", "T-CALL-WRITERS", "T-INUSE-CLOSURE"])
+prop("C11", ["T-OPTION-CONFINE", "T-ASMLINE-SIBLINGS"])
+prop("C05", ["T-HASH-ITER", "T-ORDER-FRESH", "T-NONDET-API"])
+prop("C15", ["T-CMPXFORM"])
